@@ -320,6 +320,24 @@ def run_property(pid, tier, seed, jobs=16, out=sys.stdout):
                 cov['samples'] = bounded.get('samples', [])[:10]
             else:
                 cov['samples'] = samples + [dict(bounded_case=s) for s in bounded.get('samples', [])[:5]]
+    if tier == 'thorough' and not os.environ.get('VERIF_NO_MUTANTS') and REPO == '/repo':
+        # mutation self-test of this property's checks (scratch copies; results are evidence, not a verdict)
+        try:
+            from tools import selftest
+            mm = importlib.import_module('mutants.' + pid)
+            env_keep = dict(os.environ)
+            killed, survived = [], []
+            with cf.ThreadPoolExecutor(max_workers=3) as tex:
+                futs = [(mut, tex.submit(selftest.run_mutant, pid, mut, 'quick')) for mut in mm.MUTANTS]
+                for mut, fu in futs:
+                    r = fu.result()
+                    exp = mut.get('expect', 1)
+                    ok = r.get('exit') == exp or (exp == 0 and r.get('exit') == 2)
+                    (killed if ok else survived).append(dict(id=mut['id'], expect=exp, got=r.get('exit', r.get('result'))))
+            cov['mutants'] = dict(as_expected=killed, not_as_expected=survived)
+            print('mutants: %d as expected, %d not' % (len(killed), len(survived)), file=out)
+        except ImportError:
+            cov['mutants'] = dict(note='no mutant list for this property')
     ev = dict(property_id=pid, tier=tier, seed=seed, level=level, coverage=cov,
               assumptions=sorted(assumptions | set(meta.get('assumptions', []))),
               wall_s=round(time.time() - t0, 2), violations=nviol)
